@@ -290,7 +290,7 @@ class Session:
         self.obligations.append(ob)
 
     # ---- exploration
-    def explore(self, body):
+    def explore(self, body, may_raise=False):
         """body(interp) -> value ; runs once per feasible path"""
         results = []
         self.worklist = [[]]
@@ -309,6 +309,14 @@ class Session:
                 results.append(PathResult("end", None, ctx))
             except I.PyRaise as e:
                 results.append(PathResult("raise", e.exc, ctx))
+                if not may_raise and isinstance(e.exc, (TypeError, AttributeError, KeyError, NameError)):
+                    # typically state that the harness does not provide (an attribute / metadata key the code did not touch before): not a verdict on the code
+                    raise Unsupported(f"{type(e.exc).__name__} raised by the code under contract on a harness object: {str(e.exc)[:100]} (line {ctx.lineno})")
+                if not may_raise:
+                    # an exception that escapes the code under contract on a feasible path is a failed obligation (contracts that expect one
+                    # catch it themselves or explore with may_raise=True): never a silently shorter list of obligations
+                    ctx.oblige(f"no_exception.{type(e.exc).__name__}.{ctx.func or 'harness'}@{getattr(ctx, 'stmt_tag', '')}", z3.BoolVal(False), "safety",
+                               f"raises {type(e.exc).__name__}: {str(e.exc)[:120]} (line {ctx.lineno})", assume=False)
             except I.ReturnEx as r:
                 results.append(PathResult("return", r.v, ctx))
             finally:
